@@ -39,7 +39,11 @@ type IfaceAlt struct {
 	val Value
 }
 type IfaceV struct{ alts []IfaceAlt } // no alternative holds = nil interface
-type MapV struct{ obj int }           // obj==0: nil map
+// obj==0: nil map; nn (when not nil) is the condition under which the map is non-nil (merged nil / non-nil)
+type MapV struct {
+	obj int
+	nn  *Term
+}
 type ChanV struct{ obj int }
 type Undef struct{ why string }
 
@@ -190,4 +194,14 @@ func (e *Engine) ifaceNotNil(v IfaceV) *Term {
 
 func (e *Engine) mkIface(t types.Type, v Value) IfaceV {
 	return IfaceV{[]IfaceAlt{{e.True, t, v}}}
+}
+
+func (e *Engine) mapNonNil(m MapV) *Term {
+	if m.obj == 0 {
+		return e.False
+	}
+	if m.nn == nil {
+		return e.True
+	}
+	return m.nn
 }
